@@ -68,9 +68,9 @@ anchor("wb_kurt", "shape", WB, "Weibull.kurt", ("return", 0))
 anchor("wb_skew", "shape", WB, "Weibull.skew", ("return", 0))
 anchor("wb_std", "scale shape", WB, "Weibull.std", ("return", 0))
 anchor("wb_mean", "loc scale shape", WB, "Weibull.mean", ("return", 0))
-anchor("wb_cdf", "loc scale shape x", WB, "Weibull.cdf", ("assign", "p", 0), inline=[])
-anchor("wb_pdf", "loc scale shape x", WB, "Weibull.pdf", ("assign", "p", 0), inline=[])
-anchor("wb_invcdf", "loc p scale shape", WB, "Weibull.invcdf", ("assign", "x[(p >= 0.0) & (p < 1.0)]", 0), inline=[])
+anchor("wb_cdf", "loc scale shape x", WB, "Weibull.cdf", [("assign", "p", 0), ("return", -1)], inline=[])
+anchor("wb_pdf", "loc scale shape x", WB, "Weibull.pdf", [("assign", "p", 0), ("return", -1)], inline=[])
+anchor("wb_invcdf", "loc p scale shape", WB, "Weibull.invcdf", [("assign", "x[(p >= 0.0) & (p < 1.0)]", 0), ("assign_sub", "x", 2)], inline=[])
 anchor("w2g_loc", "loc n scale shape", WB, "weibull2gumbel", ("assign", "gloc", 0), inline=[])
 anchor("w2g_scale", "n scale shape", WB, "weibull2gumbel", ("assign", "gscale", 0), inline=[])
 anchor("wb_pwm_c", "m100 m110 m120 m130", WB, "pwm", ("assign", "c", 0), inline=[])
@@ -94,24 +94,24 @@ anchor("gu_median", "loc scale", GU, "Gumbel.median", ("return", 0))
 anchor("gu_mode", "loc", GU, "Gumbel.mode", ("return", 0))
 anchor("gu_std", "scale", GU, "Gumbel.std", ("return", 0))
 anchor("gu_skew", "", GU, "Gumbel.skew", ("return", 0))
-anchor("gu_cdf", "loc scale x", GU, "Gumbel.cdf", ("assign", "p", 0), inline=["z"])
-anchor("gu_pdf", "loc scale x", GU, "Gumbel.pdf", ("assign", "p", 0), inline=["z"])
-anchor("gu_invcdf", "loc p scale", GU, "Gumbel.invcdf", ("assign", "x[z]", 0), inline=[])
+anchor("gu_cdf", "loc scale x", GU, "Gumbel.cdf", [("assign", "p", 0), ("return", -1)], inline=["z"])
+anchor("gu_pdf", "loc scale x", GU, "Gumbel.pdf", [("assign", "p", 0), ("return", -1)], inline=["z"])
+anchor("gu_invcdf", "loc p scale", GU, "Gumbel.invcdf", [("assign", "x[z]", 0), ("assign_sub", "x", 2)], inline=[])
 anchor("gu_msm_b", "sd", GU, "msm", ("assign", "b", 0), inline=[], rename={"np.std(x, ddof=1)": "sd"})
 anchor("gu_msm_a", "b mean", GU, "msm", ("assign", "a", 0), inline=[], rename={"x.mean()": "mean"})
 anchor("gu_pwm_b", "m0 m1", GU, "pwm", ("assign", "b", 0), inline=[])
 anchor("gu_pwm_a", "b m0", GU, "pwm", ("assign", "a", 0), inline=[])
 
 GM = "qats/stats/gumbelmin.py"
-anchor("gm_kurt", "", GM, "GumbelMin.kurt", ("assign", "k", 0), inline=[])
-anchor("gm_mean", "location scale", GM, "GumbelMin.mean", ("assign", "m", 0), inline=[])
-anchor("gm_median", "location scale", GM, "GumbelMin.median", ("assign", "m", 0), inline=[])
-anchor("gm_mode", "location", GM, "GumbelMin.mode", ("assign", "m", 0), inline=[])
-anchor("gm_std", "scale", GM, "GumbelMin.std", ("assign", "s", 0), inline=[])
-anchor("gm_skew", "", GM, "GumbelMin.skew", ("assign", "s", 0), inline=[])
-anchor("gm_cdf", "location scale x", GM, "GumbelMin.cdf", ("assign", "p", 0), inline=["z"])
-anchor("gm_pdf", "location scale x", GM, "GumbelMin.pdf", ("assign", "p", 0), inline=["z"])
-anchor("gm_invcdf", "location p scale", GM, "GumbelMin.invcdf", ("assign", "x[z]", 0), inline=[])
+anchor("gm_kurt", "", GM, "GumbelMin.kurt", [("assign", "k", 0), ("return", 0)], inline=[])
+anchor("gm_mean", "location scale", GM, "GumbelMin.mean", [("assign", "m", 0), ("return", 0)], inline=[])
+anchor("gm_median", "location scale", GM, "GumbelMin.median", [("assign", "m", 0), ("return", 0)], inline=[])
+anchor("gm_mode", "location", GM, "GumbelMin.mode", [("assign", "m", 0), ("return", 0)], inline=[])
+anchor("gm_std", "scale", GM, "GumbelMin.std", [("assign", "s", 0), ("return", 0)], inline=[])
+anchor("gm_skew", "", GM, "GumbelMin.skew", [("assign", "s", 0), ("return", 0)], inline=[])
+anchor("gm_cdf", "location scale x", GM, "GumbelMin.cdf", [("assign", "p", 0), ("return", -1)], inline=["z"])
+anchor("gm_pdf", "location scale x", GM, "GumbelMin.pdf", [("assign", "p", 0), ("return", -1)], inline=["z"])
+anchor("gm_invcdf", "location p scale", GM, "GumbelMin.invcdf", [("assign", "x[z]", 0), ("assign_sub", "x", 2)], inline=[])
 anchor("gm_msm_b", "sd", GM, "msm", ("assign", "b", 0), inline=[], rename={"np.std(x, ddof=1)": "sd"})
 anchor("gm_msm_a", "b mean", GM, "msm", ("assign", "a", 0), inline=[], rename={"x.mean()": "mean"})
 
@@ -126,7 +126,8 @@ anchor("gh_corrected", "means ranges uts", CO, "goodman_haigh", [("assign", "cor
 MO = "qats/motions.py"
 for _i in range(3):
     for _j in range(3):
-        anchor("mo_r%d%d" % (_i, _j), "rx ry rz", MO, "transform_motion", ("assign_elt", "trans", 0, _i, _j), inline=[])
+        anchor("mo_r%d%d" % (_i, _j), "rx ry rz", MO, ["transform_motion", "_rotation_matrix", "rotation_matrix"],
+               [("assign_elt", "trans", 0, _i, _j), ("return_elt", _i, _j)], inline=[])
 
 
 # ----------------------------------------------------------------------------------------------------------
@@ -227,6 +228,20 @@ def pick_expr(fn, pick):
         if len(hits) <= k:
             raise TranslateError("assignment #%d to `%s` not found" % (k, tgt))
         return hits[k]
+    if kind == "return_elt":
+        # element [i][j] of the nested list (possibly wrapped in np.array(...)) returned by the function
+        hits = [(s_, s_.value) for s_ in st if isinstance(s_, ast.Return) and s_.value is not None]
+        for s0, v in hits[::-1]:
+            if isinstance(v, ast.Name):
+                env0 = local_env(fn, s0)
+                v = env0.get(v.id, v)
+            if isinstance(v, ast.Call) and v.args:
+                v = v.args[0]
+            try:
+                return s0, v.elts[pick[1]].elts[pick[2]]
+            except (AttributeError, IndexError):
+                continue
+        raise TranslateError("returned matrix element [%d][%d] not found" % (pick[1], pick[2]))
     if kind == "assign_elt":
         s0, v = pick_expr(fn, ("assign", pick[1], pick[2]))
         if isinstance(v, ast.Call) and v.args:
@@ -519,6 +534,14 @@ def translate_anchor(a):
                 errs.append("%s: %s" % (alt[0], e))
         raise TranslateError("; ".join(errs))
     tree = parse(a["file"])
+    if isinstance(a["func"], list):
+        errs = []
+        for fname in a["func"]:
+            try:
+                return translate_anchor(dict(a, func=fname))
+            except TranslateError as e:
+                errs.append("%s: %s" % (fname, e))
+        raise TranslateError("; ".join(errs))
     fn = find_func(tree, a["func"])
     stmt, expr = pick_expr(fn, a["pick"])
     env = local_env(fn, stmt)
